@@ -121,6 +121,14 @@ pub fn case(idx: u64, seed: u64, p: &Params, o: &mut CaseOut) {
         // answer. Only with unscaled weights: a second call relaxes a
         // negative circuit for another n-1 rounds, which leaves the range the
         // scale factor was computed for (values would wrap).
+        {
+            // clone_from of a fresh solver into a solver for another digraph of the same order
+            let other = AdjacencyListWeighted::<isize>::empty(n);
+            let mut x = BellmanFordMoore::new(&other, (s + 1) % n);
+            x.clone_from(&BellmanFordMoore::new(&d, s));
+            let via: Option<Vec<isize>> = x.distances().map(<[isize]>::to_vec);
+            o.check(via == got, "distances-differ-after-clone_from", || format!("source {s}: direct {got:?} via clone_from {via:?}"));
+        }
         if k == 1 {
             let mut cl = bfm.clone();
             let again: Option<Vec<isize>> = bfm.distances().map(<[isize]>::to_vec);
